@@ -2,7 +2,7 @@ import MirModel
 import MirGen
 open Mir
 
-def handlers : List Handler := [Scores.handler, Matching.handler, HitMetric.handler, Chord.handler, Multipitch.handler, Beat.handler, Melody.handler, Intervals.handler, Pattern.handler, Onset.handler, Boundary.handler, Tempo.handler, Alignment.handler, IO.handler, Transcription.handler, Hierarchy.handler, Separation.handler, EvalProg.handler Gen.evalPrograms Gen.sigs EvalSpec.specs, Validate.handler, Segment.handler, ChordCompare.handler, Key.handler, Effects.handlerFor MirGen.Effects.prog MirGen.Effects.names MirGen.Effects.table]
+def handlers : List Handler := [Scores.handler, Matching.handler, HitMetric.handler, Chord.handler, Multipitch.handler, Beat.handler, Melody.handler, Intervals.handler, Pattern.handler, Onset.handler, Boundary.handler, Tempo.handler, Alignment.handler, IO.handler, Transcription.handler, Hierarchy.handler, Separation.handler, EvalProg.handler Gen.evalPrograms Gen.sigs EvalSpec.specs, Validate.handler, Segment.handler, ChordCompare.handler, ChordEval.handler, Key.handler, Effects.handlerFor MirGen.Effects.prog MirGen.Effects.names MirGen.Effects.table]
 
 def dispatch (fn : String) (args : List Val) : Option (Py Val) :=
   handlers.firstM fun h => h fn args
